@@ -290,6 +290,20 @@ fn help_tokens_strategy(d: &Decl) -> BoxedStrategy<Vec<String>> {
         t.insert(at.min(t.len()), if kind % 2 == 0 { "--help".to_string() } else { "-h".to_string() });
         t
     });
+    // both forms at once: `help <command ...>` where the rest also carries a help option
+    let help_and_option = with_help.clone().prop_map(|mut t| {
+        t.insert(0, "help".to_string());
+        t
+    });
+    let paths3 = paths2.clone();
+    let help_path_option = (any::<u16>(), any::<bool>()).prop_map(move |(sel, long)| {
+        let mut t = vec!["help".to_string()];
+        if !paths3.is_empty() {
+            t.extend(paths3[(sel as usize * paths3.len()) >> 16].clone());
+        }
+        t.push(if long { "--help".into() } else { "-h".into() });
+        t
+    });
     let after_dd = ordinary.prop_map(|mut t| {
         if let Some(p) = t.iter().position(|x| x == "--") {
             t.truncate(p);
@@ -315,6 +329,8 @@ fn help_tokens_strategy(d: &Decl) -> BoxedStrategy<Vec<String>> {
         (8, help_path.boxed()),
         (6, path_help.boxed()),
         (12, with_help.boxed()),
+        (3, help_and_option.boxed()),
+        (3, help_path_option.boxed()),
         (2, after_dd.boxed()),
         (1, Just(vec!["help".to_string(), "nosuch".to_string()]).boxed()),
         (1, Just(vec!["nosuch".to_string(), "-h".to_string()]).boxed()),
